@@ -72,10 +72,28 @@ def spline_cases(spaces, rng, cases, exact):
             cases.append({"mod": mod, "fn": pre + "_eval_spline_1d_vector", "args": [X, kn, sp.p, c, np.zeros(len(X)), der]})
         # 2-D with itself
         c2 = np.array([[float(rng.randint(-5, 5)) for _ in range(sp.nb)] for _ in range(sp.nb)])
-        for d1, d2 in ((0, 0), (1, 0), (0, 1)):
+        for d1, d2 in ((0, 0), (1, 0), (0, 1), (1, 1)):
+            if sp.p == 1 and (d1 or d2):
+                continue       # one-sided derivatives of degree-1 splines at breakpoints: compared in 1-D only
             cases.append({"mod": mod, "fn": pre + "_eval_spline_2d_scalar", "args": [xs[1], xs[-2], kn, sp.p, kn, sp.p, c2, d1, d2]})
             cases.append({"mod": mod, "fn": pre + "_eval_spline_2d_cross", "args": [X, X[::2].copy(), kn, sp.p, kn, sp.p, c2, np.zeros((len(X), len(X[::2]))), d1, d2]})
             cases.append({"mod": mod, "fn": pre + "_eval_spline_2d_vector", "args": [X, X[::-1].copy(), kn, sp.p, kn, sp.p, c2, np.zeros(len(X)), d1, d2]})
+        # 2-D with ANOTHER space of a different degree in the second direction (general path only: the fast path is cubic x cubic)
+        if sp.kind != "cu":
+            others = [o for o in spaces if o.kind != "cu" and o.p != sp.p and o.p >= 2]
+            if others and sp.p >= 2:
+                o = rng.choice(others)
+                ob = o.make(-1.0, 0.5)
+                okn = np.array(ob.knots, dtype=float)
+                obr = o.real_breaks(-1.0, 0.5)
+                Y = np.array(sorted(set([float(b) for b in obr] + [float(obr[0] + rng.random() * (obr[-1] - obr[0])) for _ in range(3)])))
+                c3 = np.array([[float(rng.randint(-5, 5)) for _ in range(o.nb)] for _ in range(sp.nb)])
+                Xi = X[1:-1]
+                for d1, d2 in ((0, 0), (1, 0), (0, 1), (1, 1)):
+                    cases.append({"mod": mod, "fn": "nu_eval_spline_2d_scalar", "args": [float(Xi[1]), float(Y[-2]), kn, sp.p, okn, o.p, c3, d1, d2]})
+                    cases.append({"mod": mod, "fn": "nu_eval_spline_2d_cross", "args": [Xi.copy(), Y.copy(), kn, sp.p, okn, o.p, c3, np.zeros((len(Xi), len(Y))), d1, d2]})
+                    n = min(len(Xi), len(Y))
+                    cases.append({"mod": mod, "fn": "nu_eval_spline_2d_vector", "args": [Xi[:n].copy(), Y[:n][::-1].copy(), kn, sp.p, okn, o.p, c3, np.zeros(n), d1, d2]})
 
 
 def advection_cases(rng, cases):
